@@ -41,7 +41,15 @@ func (pid *PeerID) UnmarshalText(data []byte) error {
 	if len(data) != enc.EncodedLen(len(pid)) {
 		return errors.New("data is wrong length")
 	}
-	enc.Decode(pid[:], data)
+	var buf [PeerIDSize]byte
+	n, err := enc.Strict().Decode(buf[:], data)
+	if err != nil {
+		return err
+	}
+	if n != len(buf) {
+		return errors.New("data is wrong length")
+	}
+	*pid = buf
 	return nil
 }
 
